@@ -26,6 +26,12 @@ static inline _Bool vstr_eq_cstr(const vstr* s, const char* c) { size_t i = 0; _
   return eq && end; }
 static inline struct part mk_part(const vstr* name, int idx) { struct part p; p.first = *name; p.second = idx; return p; }
 static inline void partvec_push(struct partvec* v, struct part p) { __CPROVER_assert(v->n < PCAP, "model capacity: more parts than PCAP"); if (v->n < PCAP) { v->e[v->n] = p; v->n = v->n + 1; } }
+/* std::string::find_first_of(str, pos): first position >= pos holding any character of the set */
+static inline size_t vstr_find_first_of_str(const vstr* s, const vstr* set, size_t pos) {
+  size_t r = VSTR_NPOS;
+  for (size_t i = 0; i < VSTR_CAP; i++) { if (r == VSTR_NPOS && i >= pos && i < s->n) { _Bool m = 0; for (size_t k = 0; k < VSTR_CAP; k++) { if (k < set->n && set->d[k] == s->d[i]) m = 1; } if (m) r = i; } }
+  return r;
+}
 static inline size_t vstr_rfind_char(const vstr* s, char ch) { size_t r = VSTR_NPOS; for (size_t i = 0; i < VSTR_CAP; i++) { if (i < s->n && s->d[i] == ch) r = i; } return r; }
 _Bool g_restart_topic;
 static inline _Bool env_is_restart_topic(const vstr* t) { (void)t; return g_restart_topic; }
